@@ -414,8 +414,16 @@ func runC20s(rc *RunCtx) {
 					continue
 				}
 				c.nOpen++
-				if G.Draw(3) == 0 {
+				if x := G.Draw(4); x == 0 {
 					cc.Write(payload(G, 60)) // a probe
+				} else if x == 1 {
+					// a probe whose client resets the connection while the server is absorbing it
+					cc.Write(payload(G, 60))
+					simrt.Sleep(time.Duration(1+G.Draw(200)) * time.Millisecond)
+					cc.Write(payload(G, 10))
+					cc.Abort()
+					simrt.Probe("probe_reset_by_client")
+					continue
 				} else {
 					enc := newEncoder(key)
 					enc.Lazy(socksAddr(fmt.Sprintf("%s:7000", tgtIP)))
